@@ -89,6 +89,14 @@ CHECKS = {
          'for shape.'),
    note='Necessary conditions only: that every concatenation of replacements and copied input parses in strict mode is not decided.',
    technique='evaluation of the literal encoder tables against inertness predicates + AST shape rules on policies/protection/fallback arm'),
+ 'C16': dict(level='other', design='DESIGN.md section 5, C16',
+   text=('Decides the wiring of the backward-compatible entry points onto the new parser objects: the parser class each '
+         'shim builds equals the one its deprecation message names, the reader starts at `pos`, every parameter is live, '
+         'stop options agree between the stop predicate and the required-stop flag, the result triple comes from the parsed '
+         'node, CallableSpec builds its arguments parser from the value it tested, legacy attribute names written = read, '
+         'and the legacy args parser advances only to positions reported by its sub-parses.'),
+   note='Equality of trees between legacy and new entry points on all inputs is not decided; only the wiring is.',
+   technique='AST wiring/liveness analysis of the legacy shims, guard/use agreement, sibling-branch agreement, name agreement of legacy attributes'),
 }
 
 NOT_YET = {}
